@@ -517,8 +517,13 @@ func writeTypeConversion(w *formatting.IndentedWriter, typeChange dsl.TypeChange
 
 			overflowCheck := ""
 			if dsl.GetPrimitiveKind(oldPrim) == dsl.PrimitiveKindFloatingPoint {
-				if dsl.GetPrimitiveKind(newPrim) == dsl.PrimitiveKindInteger ||
-					(dsl.GetPrimitiveKind(newPrim) == dsl.PrimitiveKindFloatingPoint && dsl.GetPrimitiveWidth(oldPrim) > dsl.GetPrimitiveWidth(newPrim)) {
+				if dsl.GetPrimitiveKind(newPrim) == dsl.PrimitiveKindInteger {
+					// The largest value of a wide integer type is not representable in the floating-point type and would be
+					// rounded up by the comparison (static_cast<double>(INT64_MAX) == 2^63): compare the rounded value with
+					// the exact bounds [lowest, 2^digits) instead. Written this way the check also rejects NaN.
+					overflowCheck = fmt.Sprintf("if (!(std::round(%s) >= static_cast<%s>(std::numeric_limits<%s>::lowest()) && std::round(%s) < std::ldexp(static_cast<%s>(1), std::numeric_limits<%s>::digits))) {\n",
+						rhs, common.TypeSyntax(tc.OldType()), common.TypeSyntax(tc.NewType()), rhs, common.TypeSyntax(tc.OldType()), common.TypeSyntax(tc.NewType()))
+				} else if dsl.GetPrimitiveKind(newPrim) == dsl.PrimitiveKindFloatingPoint && dsl.GetPrimitiveWidth(oldPrim) > dsl.GetPrimitiveWidth(newPrim) {
 					overflowCheck = fmt.Sprintf("if (%s > std::numeric_limits<%s>::max() || %s < std::numeric_limits<%s>::lowest()) {\n", rhs, common.TypeSyntax(tc.NewType()), rhs, common.TypeSyntax(tc.NewType()))
 				}
 			}
